@@ -124,6 +124,83 @@ def endsSection (rest : Bytes) : Bool :=
   | some b => !(isDig b || b == 43 || b == 45)
   | none => true
 
+/-! ### reading an ACCEPTED table back from the bytes
+
+  Used by the oracle on arbitrary (raw, mutated) input: when an implementation says it accepted a
+  table with subsections `(start, count)` and entries at given offsets, everything it consumed is
+  re-derived from the bytes by position - header syntax and the fixed 20-byte form - without
+  reference to any parser model.  The header reader is deliberately lenient about blanks (it only
+  has to accept every layout a conforming reader may accept); the entries are checked strictly. -/
+
+/-- skip white space and `%…` comments -/
+def skipWsComments : Nat → Bytes → Nat → Nat
+  | 0, _, i => i
+  | f + 1, s, i =>
+    match s[i]? with
+    | some b =>
+      if isWs b then skipWsComments f s (i + 1)
+      else if b == 37 then
+        let j := i + 1 + ((s.drop (i + 1)).takeWhile fun c => c != 10).length
+        skipWsComments f s (if s[j]? == some 10 then j + 1 else j)
+      else i
+    | none => i
+
+/-- an optionally signed decimal number at `i`: value and position after it -/
+def readNum (s : Bytes) (i : Nat) : Option (Nat × Nat) :=
+  let sg : Bool × Nat := match s[i]? with
+    | some 43 => (false, i + 1)
+    | some 45 => (true, i + 1)
+    | _ => (false, i)
+  let ds := (s.drop sg.2).takeWhile isDig
+  if ds.isEmpty then none
+  else if sg.1 && decOf ds != 0 then none
+  else some (decOf ds, sg.2 + ds.length)
+
+/-- a subsection header at or after `i`: `start SP count` and then at least one white-space byte or
+    comment; returns start, count and the position where the entries begin -/
+def scanHeader (s : Bytes) (i : Nat) : Option (Nat × Nat × Nat) :=
+  let i0 := skipWsComments (s.length + 1) s i
+  match readNum s i0 with
+  | none => none
+  | some (st, i1) =>
+    if s[i1]? != some 32 then none
+    else match readNum s (i1 + 1) with
+      | none => none
+      | some (cnt, i2) =>
+        let i3 := skipWsComments (s.length + 1) s i2
+        if i3 == i2 then none else some (st, cnt, i3)
+
+/-- the entries claimed for one subsection: entry `k` sits at `first + 20 k`, those 20 bytes are in
+    the fixed form and denote exactly the claimed entry numbered `start + k`; `some k` = first bad one -/
+def badEntry (s : Bytes) (start first : Nat) (ents : List (Ent × Nat)) : Option Nat :=
+  (ents.zipIdx.find? fun (p : (Ent × Nat) × Nat) =>
+    !(p.1.2 == first + 20 * p.2 &&
+      (match entryAt s p.1.2 with
+       | some x => decide (mkEnt (start + p.2) x = p.1.1)
+       | none => false))).map (·.2)
+
+/-- walk the claimed subsections from `cur`; `none` = everything checks, `some msg` = what does not -/
+def checkSubs (s : Bytes) : Nat → List (Nat × Nat) → List (Ent × Nat) → Nat → Option String
+  | _, [], [], _ => none
+  | _, [], _ :: _, _ => some "more entries than the subsections announce"
+  | cur, (st, cnt) :: t, ents, n =>
+    match scanHeader s cur with
+    | none => some s!"no subsection header at offset {cur}"
+    | some (st', cnt', first) =>
+      if st' != st || cnt' != cnt then some s!"header at offset {cur} says {st'} {cnt'}"
+      else if ents.length < cnt then some s!"subsection {st} {cnt} has too few entries"
+      else match badEntry s st first (ents.take cnt) with
+        | some k => some s!"entry {n + k} at offset {first + 20 * k} is not the claimed entry in the 20-byte form"
+        | none => checkSubs s (first + 20 * cnt) t (ents.drop cnt) (n + cnt)
+
+/-- an accepted table, re-read from the bytes: `xref` after optional white space at `start`, then
+    the claimed subsections and entries -/
+def checkAccepted (s : Bytes) (start : Nat) (subs : List (Nat × Nat)) (ents : List (Ent × Nat)) : Option String :=
+  let i0 := skipWsComments (s.length + 1) s start
+  if !(kwXref.isPrefixOf (s.drop i0)) then some s!"no xref keyword at offset {i0}"
+  else if subs.isEmpty then some "no subsection"
+  else checkSubs s (i0 + 4) subs ents 0
+
 /-! ### the cross-reference stream -/
 
 /-- a row as written: type, field 2, field 3 -/
@@ -214,13 +291,6 @@ def dictMeaning (d : Dict) : Option (List (Nat × Nat) × Nat × Nat × Nat) :=
       | _, _ => none
     else none
   | _, _, _ => none
-
-/-- no `/Filter` at all (the only case the slicing spec speaks about) -/
-def unfiltered (d : Dict) : Bool :=
-  match lookup d sFilter with
-  | some (.arr []) => true
-  | some _ => false
-  | none => true
 
 /-- one row, by position -/
 def rowMeaning (w0 w1 w2 obj : Nat) (row : Bytes) : Option Ent :=
